@@ -27,7 +27,7 @@ func init() {
 		Phases: func(tier string, seed int64) []Phase {
 			return []Phase{{Name: "helpers", Run: c16Helpers}, {Name: "constructors", Run: c16Constructors}}
 		},
-		MinObserved: []string{"calls", "sid_pairs", "response_constructor_calls", "default_result_codes_checked", "convertstring_multi_argument_inverse_checked"},
+		MinObserved: []string{"calls", "sid_pairs", "response_constructor_calls", "default_result_codes_checked", "convertstring_multi_argument_inverse_checked", "convertstring_calls_with_an_argument_of_another_type"},
 	})
 }
 
@@ -50,6 +50,18 @@ func c16Helpers(c *Ctx) {
 				hexargs = append(hexargs, hxs(a))
 			}
 			c16Panic(c, "ConvertString", m, st, hexargs)
+			return out, err
+		}
+		// "OctetString, GeneralString and all other types will return an error": an argument that is too short to carry
+		// a tag and a length, or whose identifier octet is not exactly 0x04 / 0x1b, makes the call fail
+		for _, a := range args {
+			if len(a) < 2 || (a[0] != 0x04 && a[0] != 0x1b) {
+				c.Count("convertstring_calls_with_an_argument_of_another_type", 1)
+				if err == nil {
+					c.Violate("ConvertString accepts an argument that is not an OctetString or GeneralString encoding", fmt.Sprintf("argument %s: result %q, no error", hx(trunc([]byte(a), 16)), out), map[string]any{"arg_hex": hx(trunc([]byte(a), 64))})
+				}
+				break
+			}
 		}
 		return out, err
 	}
